@@ -1,14 +1,531 @@
 package main
 
-// Replay of counterexamples on the real code (go test -overlay). Filled in per function kind.
+// Replay of counterexamples on the real code.
+//
+// Scope: functions / methods whose parameters are integers, booleans, strings, byte slices or
+// pointers to byte arrays (also as receiver) and whose results are integers, booleans, strings, byte
+// slices or errors. For a failed `ensures` obligation with a model, the inputs are read from the
+// model (get-value), the REAL function is run on them in an in-package test injected with
+// `go test -overlay` (nothing is written into the repository), and the observed results are asserted
+// into the very VC that failed: if it is still satisfiable the real execution violates the clause
+// (reproduced); if not, the counterexample was an artefact of an abstraction (not reproduced).
+
+import (
+	"bytes"
+	"context"
+	"encoding/json"
+	"fmt"
+	"go/types"
+	"math/big"
+	"os"
+	"os/exec"
+	"path/filepath"
+	"regexp"
+	"strconv"
+	"strings"
+	"time"
+
+	"golang.org/x/tools/go/ssa"
+)
 
 type ReplayResult struct {
-	Reproduced bool   `json:"reproduced"`
-	Command    string `json:"command,omitempty"`
-	Output     string `json:"output,omitempty"`
-	Note       string `json:"note,omitempty"`
+	Reproduced bool              `json:"reproduced"`
+	Command    string            `json:"command,omitempty"`
+	Inputs     map[string]string `json:"inputs,omitempty"`
+	Observed   string            `json:"observed,omitempty"`
+	TestFile   string            `json:"test_file,omitempty"`
+	Output     string            `json:"output,omitempty"`
+	Note       string            `json:"note,omitempty"`
+}
+
+type rpParam struct {
+	name string
+	typ  types.Type
+	term string
+	kind string // int bool str bytes arrptr
+	n    int64  // array length for arrptr
+	// concrete
+	ival  string
+	bval  bool
+	bytes []byte
+	isNil bool
+}
+
+func rpKind(t types.Type) (string, int64) {
+	switch u := t.Underlying().(type) {
+	case *types.Basic:
+		if u.Info()&types.IsInteger != 0 {
+			return "int", 0
+		}
+		if u.Info()&types.IsBoolean != 0 {
+			return "bool", 0
+		}
+		if u.Info()&types.IsString != 0 {
+			return "str", 0
+		}
+	case *types.Slice:
+		if b, ok := u.Elem().Underlying().(*types.Basic); ok && b.Kind() == types.Uint8 {
+			return "bytes", 0
+		}
+	case *types.Pointer:
+		if a, ok := u.Elem().Underlying().(*types.Array); ok {
+			if b, ok := a.Elem().Underlying().(*types.Basic); ok && b.Kind() == types.Uint8 {
+				return "arrptr", a.Len()
+			}
+		}
+	case *types.Interface:
+		if n, ok := t.(*types.Named); ok && n.Obj().Name() == "error" && n.Obj().Pkg() == nil {
+			return "error", 0
+		}
+	}
+	return "", 0
+}
+
+var getValRe = regexp.MustCompile(`\(\(([^()]*(?:\([^()]*\)[^()]*)*)\s+((?:#x[0-9a-fA-F]+)|(?:#b[01]+)|(?:-?\d+)|(?:\(- \d+\))|true|false)\)\)`)
+
+// smtNum parses #x.. / decimal / (- n) into a decimal string (two's complement for signed bit-vectors).
+func smtNum(v string, signedBits int) (string, bool) {
+	v = strings.TrimSpace(v)
+	if strings.HasPrefix(v, "#x") {
+		u, err := strconv.ParseUint(v[2:], 16, 64)
+		if err != nil {
+			return "", false
+		}
+		if signedBits > 0 && signedBits <= 64 {
+			w := uint(len(v[2:]) * 4)
+			if w <= 64 && u>>(w-1) == 1 {
+				if w == 64 {
+					return strconv.FormatInt(int64(u), 10), true
+				}
+				return strconv.FormatInt(int64(u)-int64(1)<<w, 10), true
+			}
+		}
+		return strconv.FormatUint(u, 10), true
+	}
+	if strings.HasPrefix(v, "(- ") {
+		return "-" + strings.TrimSuffix(v[3:], ")"), true
+	}
+	if _, err := strconv.ParseInt(v, 10, 64); err == nil {
+		return v, true
+	}
+	if _, err := strconv.ParseUint(v, 10, 64); err == nil {
+		return v, true
+	}
+	return "", false
+}
+
+func runZ3Values(smt string, terms []string) (map[string]string, bool) {
+	f, err := os.CreateTemp("", "govc-replay-*.smt2")
+	if err != nil {
+		return nil, false
+	}
+	defer os.Remove(f.Name())
+	var sb strings.Builder
+	sb.WriteString("(set-option :produce-models true)\n")
+	sb.WriteString(smt)
+	sb.WriteString("(check-sat)\n")
+	for _, t := range terms {
+		sb.WriteString("(get-value (" + t + "))\n")
+	}
+	_, _ = f.WriteString(sb.String())
+	f.Close()
+	ctx, cancel := context.WithTimeout(context.Background(), 40*time.Second)
+	defer cancel()
+	out, _ := exec.CommandContext(ctx, "z3-new", "-T:30", f.Name()).CombinedOutput()
+	lines := strings.Split(string(out), "\n")
+	if len(lines) == 0 || strings.TrimSpace(lines[0]) != "sat" {
+		return nil, false
+	}
+	res := map[string]string{}
+	body := strings.Join(lines[1:], " ")
+	// values come back in order, one "((term value))" per get-value
+	idx := 0
+	for _, m := range splitSexprs(body) {
+		if idx >= len(terms) {
+			break
+		}
+		mm := strings.TrimSpace(m)
+		if !strings.HasPrefix(mm, "((") {
+			continue
+		}
+		inner := strings.TrimSuffix(strings.TrimPrefix(mm, "("), ")")
+		parts := splitSexprs(strings.TrimSuffix(strings.TrimPrefix(strings.TrimSpace(inner), "("), ")"))
+		if len(parts) >= 2 {
+			res[terms[idx]] = parts[len(parts)-1]
+		}
+		idx++
+	}
+	return res, true
+}
+
+// stripCheck removes the final (check-sat) and model requests from an SMT file text.
+func stripCheck(s string) string {
+	i := strings.LastIndex(s, "(check-sat)")
+	if i < 0 {
+		return s
+	}
+	return s[:i]
 }
 
 func tryReplay(verif string, e *Engine, j *job) *ReplayResult {
-	return nil
+	if j.o.Kind != "ensures" || j.res.Status != "sat" || os.Getenv("VERIF_NO_REPLAY") != "" {
+		return nil
+	}
+	fc := e.contracts[j.fr.Key]
+	if fc == nil {
+		return nil
+	}
+	fn, err := e.findFunc(fc)
+	if err != nil || fn == nil || len(fn.Params) != len(j.fr.VC.inputs) {
+		return nil
+	}
+	if !strings.HasPrefix(fn.Pkg.Pkg.Path(), repoModule) {
+		return nil
+	}
+	vc := j.fr.VC
+	var ps []*rpParam
+	for i, p := range fn.Params {
+		k, n := rpKind(p.Type())
+		if k == "" || k == "error" {
+			return &ReplayResult{Note: "replay not attempted: parameter " + p.Name() + " of type " + p.Type().String() + " is outside the replay harness (scalars, strings, byte slices, byte-array pointers)"}
+		}
+		ps = append(ps, &rpParam{name: p.Name(), typ: p.Type(), term: vc.inputs[i].Term, kind: k, n: n})
+	}
+	rs := fn.Signature.Results()
+	var rkinds []string
+	for i := 0; i < rs.Len(); i++ {
+		k, _ := rpKind(rs.At(i).Type())
+		if k == "" || k == "arrptr" {
+			return &ReplayResult{Note: "replay not attempted: result type " + rs.At(i).Type().String() + " is outside the replay harness"}
+		}
+		rkinds = append(rkinds, k)
+	}
+	if len(j.o.ResTerms) != rs.Len() {
+		return &ReplayResult{Note: "replay not attempted: result terms not recorded"}
+	}
+	base := stripCheck(e.smtFile(vc, j.o, false))
+	bvMode := vc.ar.Mode == ModeBV
+	idxLit := func(i int64) string { return vc.idx(i).S }
+	// pass 1: scalars and lengths
+	var terms []string
+	for _, p := range ps {
+		switch p.kind {
+		case "int", "bool":
+			terms = append(terms, p.term)
+		case "str":
+			terms = append(terms, "(gs.len "+p.term+")")
+		case "bytes":
+			terms = append(terms, "(s-ref "+p.term+")", "(s-off "+p.term+")", "(s-len "+p.term+")")
+		case "arrptr":
+			terms = append(terms, p.term)
+		}
+	}
+	vals, ok := runZ3Values(base, terms)
+	if !ok {
+		return &ReplayResult{Note: "replay not attempted: the model could not be re-derived"}
+	}
+	fix := ""
+	lens := map[string]int64{}
+	for _, p := range ps {
+		switch p.kind {
+		case "int":
+			k, _ := intKindOf(p.typ)
+			sb := 0
+			if k.Signed {
+				sb = k.W
+			}
+			d, ok := smtNum(vals[p.term], sb)
+			if !ok {
+				return &ReplayResult{Note: "replay not attempted: cannot read the value of " + p.name}
+			}
+			p.ival = d
+			fix += fmt.Sprintf("(assert (= %s %s))\n", p.term, vals[p.term])
+		case "bool":
+			p.bval = vals[p.term] == "true"
+			fix += fmt.Sprintf("(assert (= %s %s))\n", p.term, vals[p.term])
+		case "str":
+			d, ok := smtNum(vals["(gs.len "+p.term+")"], 64)
+			n, _ := strconv.ParseInt(d, 10, 64)
+			if !ok || n < 0 || n > 4096 {
+				return &ReplayResult{Note: "replay skipped: string length in the model is " + d}
+			}
+			lens[p.name] = n
+			fix += fmt.Sprintf("(assert (= (gs.len %s) %s))\n", p.term, vals["(gs.len "+p.term+")"])
+		case "bytes":
+			d, ok := smtNum(vals["(s-len "+p.term+")"], 64)
+			n, _ := strconv.ParseInt(d, 10, 64)
+			if !ok || n < 0 || n > 4096 {
+				return &ReplayResult{Note: "replay skipped: slice length in the model is " + d}
+			}
+			lens[p.name] = n
+			p.isNil = vals["(s-ref "+p.term+")"] == "0"
+			for _, t := range []string{"(s-ref " + p.term + ")", "(s-off " + p.term + ")", "(s-len " + p.term + ")"} {
+				fix += fmt.Sprintf("(assert (= %s %s))\n", t, vals[t])
+			}
+		case "arrptr":
+			p.isNil = vals[p.term] == "0"
+			fix += fmt.Sprintf("(assert (= %s %s))\n", p.term, vals[p.term])
+		}
+	}
+	// pass 2: contents
+	entryE := j.o.EntryE
+	terms = nil
+	type bref struct {
+		p *rpParam
+		i int64
+	}
+	var order []bref
+	for _, p := range ps {
+		switch p.kind {
+		case "str":
+			for i := int64(0); i < lens[p.name]; i++ {
+				terms = append(terms, fmt.Sprintf("(gs.at %s %s)", p.term, idxLit(i)))
+				order = append(order, bref{p, i})
+			}
+		case "bytes":
+			add := "+"
+			if bvMode {
+				add = "bvadd"
+			}
+			for i := int64(0); i < lens[p.name]; i++ {
+				terms = append(terms, fmt.Sprintf("(select (select %s (s-ref %s)) (%s (s-off %s) %s))", entryE, p.term, add, p.term, idxLit(i)))
+				order = append(order, bref{p, i})
+			}
+		case "arrptr":
+			if !p.isNil {
+				for i := int64(0); i < p.n; i++ {
+					terms = append(terms, fmt.Sprintf("(select (select %s %s) %s)", entryE, p.term, idxLit(i)))
+					order = append(order, bref{p, i})
+				}
+			}
+		}
+	}
+	if len(terms) > 0 {
+		vals2, ok := runZ3Values(base+fix, terms)
+		if !ok {
+			return &ReplayResult{Note: "replay not attempted: the model could not be re-derived (contents)"}
+		}
+		for k, br := range order {
+			d, ok := smtNum(vals2[terms[k]], 0)
+			b, _ := strconv.ParseUint(d, 10, 8)
+			if !ok {
+				return &ReplayResult{Note: "replay not attempted: cannot read a content byte of " + br.p.name}
+			}
+			br.p.bytes = append(br.p.bytes, byte(b))
+			fix += fmt.Sprintf("(assert (= %s %s))\n", terms[k], vals2[terms[k]])
+		}
+	}
+	// the test
+	inputs := map[string]string{}
+	src, call := rpTestSource(fn, ps, rkinds, inputs)
+	if src == "" {
+		return &ReplayResult{Note: "replay not attempted: no harness for this signature"}
+	}
+	dir, err := os.MkdirTemp("", "govc-replay-")
+	if err != nil {
+		return nil
+	}
+	defer os.RemoveAll(dir)
+	pkgDir := filepath.Dir(e.fset.Position(fn.Pos()).Filename)
+	testFile := filepath.Join(dir, "zz_govc_replay_test.go")
+	_ = os.WriteFile(testFile, []byte(src), 0o644)
+	ov, _ := json.Marshal(map[string]map[string]string{"Replace": {filepath.Join(pkgDir, "zz_govc_replay_test.go"): testFile}})
+	ovFile := filepath.Join(dir, "ov.json")
+	_ = os.WriteFile(ovFile, ov, 0o644)
+	ctx, cancel := context.WithTimeout(context.Background(), 180*time.Second)
+	defer cancel()
+	cmd := exec.CommandContext(ctx, "go", "test", "-overlay", ovFile, "-vet=off", "-count=1", "-timeout", "60s", "-run", "^TestGovcReplay$", "-v", ".")
+	cmd.Dir = pkgDir
+	cmd.Env = append(os.Environ(), "GOFLAGS=-mod=mod", "GOPROXY=off", "GOSUMDB=off", "GOTOOLCHAIN=local")
+	var buf bytes.Buffer
+	cmd.Stdout, cmd.Stderr = &buf, &buf
+	_ = cmd.Run()
+	outText := buf.String()
+	rr := &ReplayResult{Command: "cd " + pkgDir + " && go test -overlay <ov.json> -vet=off -count=1 -timeout 60s -run ^TestGovcReplay$ -v .   # call: " + call, Inputs: inputs, TestFile: src}
+	m := regexp.MustCompile(`GOVC-REPLAY (\{.*\})`).FindStringSubmatch(outText)
+	if m == nil {
+		rr.Output = truncate(outText, 3000)
+		rr.Note = "the replay did not produce results (build failure, panic or timeout): not reproduced"
+		return rr
+	}
+	rr.Observed = m[1]
+	var obs struct {
+		R []json.RawMessage `json:"r"`
+	}
+	if err := json.Unmarshal([]byte(m[1]), &obs); err != nil || len(obs.R) != len(rkinds) {
+		rr.Note = "cannot parse the replay output"
+		return rr
+	}
+	// assert the observed results into the failed VC
+	post := ""
+	add := "+"
+	if bvMode {
+		add = "bvadd"
+	}
+	for i, k := range rkinds {
+		t := j.o.ResTerms[i].T.S
+		switch k {
+		case "int":
+			var s string
+			_ = json.Unmarshal(obs.R[i], &s)
+			ik, _ := intKindOf(rs.At(i).Type())
+			bi, ok := parseBig(s)
+			if !ok {
+				rr.Note = "cannot parse an integer result"
+				return rr
+			}
+			post += fmt.Sprintf("(assert (= %s %s))\n", t, vc.ar.Lit(bi, ik).S)
+		case "bool":
+			var b bool
+			_ = json.Unmarshal(obs.R[i], &b)
+			post += fmt.Sprintf("(assert (= %s %v))\n", t, b)
+		case "error":
+			var isNil bool
+			_ = json.Unmarshal(obs.R[i], &isNil)
+			if isNil {
+				post += fmt.Sprintf("(assert (= %s (mk-iface 0 0)))\n", t)
+			} else {
+				post += fmt.Sprintf("(assert (not (= %s (mk-iface 0 0))))\n", t)
+			}
+		case "bytes":
+			var bs struct {
+				Nil bool  `json:"nil"`
+				B   []int `json:"b"`
+			}
+			_ = json.Unmarshal(obs.R[i], &bs)
+			if bs.Nil {
+				post += fmt.Sprintf("(assert (= (s-ref %s) 0))\n", t)
+			} else {
+				post += fmt.Sprintf("(assert (not (= (s-ref %s) 0)))\n", t)
+			}
+			post += fmt.Sprintf("(assert (= (s-len %s) %s))\n", t, idxLit(int64(len(bs.B))))
+			for q, b := range bs.B {
+				post += fmt.Sprintf("(assert (= (select (select %s (s-ref %s)) (%s (s-off %s) %s)) %s))\n", j.o.ExitE, t, add, t, idxLit(int64(q)), vc.ar.Lit64(int64(b), IntKind{8, false}).S)
+			}
+		case "str":
+			var bs []int
+			_ = json.Unmarshal(obs.R[i], &bs)
+			post += fmt.Sprintf("(assert (= (gs.len %s) %s))\n", t, idxLit(int64(len(bs))))
+			for q, b := range bs {
+				post += fmt.Sprintf("(assert (= (gs.at %s %s) %s))\n", t, idxLit(int64(q)), vc.ar.Lit64(int64(b), IntKind{8, false}).S)
+			}
+		}
+	}
+	_, still := runZ3Values(base+fix+post, nil)
+	if still {
+		rr.Reproduced = true
+		rr.Note = "the real function, run on the counterexample's inputs, returned results that violate the clause"
+	} else {
+		rr.Note = "the real function's results on these inputs do not violate the clause (or could not be matched to the model): the counterexample is an artefact of an abstraction - not reproduced"
+	}
+	return rr
+}
+
+func goBytesLit(bs []byte, isNil bool) string {
+	if isNil && len(bs) == 0 {
+		return "[]byte(nil)"
+	}
+	var sb strings.Builder
+	sb.WriteString("[]byte{")
+	for i, b := range bs {
+		if i > 0 {
+			sb.WriteString(", ")
+		}
+		fmt.Fprintf(&sb, "0x%02x", b)
+	}
+	sb.WriteString("}")
+	return sb.String()
+}
+
+// rpTestSource writes the in-package test that calls the real function.
+func rpTestSource(fn *ssa.Function, ps []*rpParam, rkinds []string, inputs map[string]string) (string, string) {
+	pkg := fn.Pkg.Pkg
+	var sb strings.Builder
+	fmt.Fprintf(&sb, "package %s\n\nimport (\n\t\"encoding/json\"\n\t\"fmt\"\n\t\"testing\"\n)\n\n", pkg.Name())
+	sb.WriteString("// generated by govc: replays a counterexample on the real code\nfunc TestGovcReplay(t *testing.T) {\n")
+	qual := func(p *types.Package) string {
+		if p == pkg {
+			return ""
+		}
+		return p.Name()
+	}
+	var args []string
+	recv := ""
+	isMethod := fn.Signature.Recv() != nil
+	for i, p := range ps {
+		v := fmt.Sprintf("a%d", i)
+		ts := types.TypeString(p.typ, qual)
+		if strings.Contains(ts, ".") && !isMethodRecv(isMethod, i) {
+			return "", "" // a type of another package: imports are not generated
+		}
+		switch p.kind {
+		case "int":
+			fmt.Fprintf(&sb, "\tvar %s %s = %s\n", v, ts, p.ival)
+			inputs[p.name] = p.ival
+		case "bool":
+			fmt.Fprintf(&sb, "\tvar %s %s = %v\n", v, ts, p.bval)
+			inputs[p.name] = fmt.Sprint(p.bval)
+		case "str":
+			fmt.Fprintf(&sb, "\tvar %s %s = %s(%s)\n", v, ts, ts, goBytesLit(p.bytes, false))
+			inputs[p.name] = fmt.Sprintf("%q", string(p.bytes))
+		case "bytes":
+			fmt.Fprintf(&sb, "\tvar %s %s = %s\n", v, ts, goBytesLit(p.bytes, p.isNil))
+			inputs[p.name] = fmt.Sprintf("%x", p.bytes)
+		case "arrptr":
+			et := types.TypeString(p.typ.Underlying().(*types.Pointer).Elem(), qual)
+			if p.isNil {
+				fmt.Fprintf(&sb, "\tvar %s %s\n", v, ts)
+				inputs[p.name] = "nil"
+			} else {
+				fmt.Fprintf(&sb, "\tvar %sv %s\n\tcopy(%sv[:], %s)\n\t%s := &%sv\n", v, et, v, goBytesLit(p.bytes, false), v, v)
+				inputs[p.name] = fmt.Sprintf("%x", p.bytes)
+			}
+		}
+		if isMethod && i == 0 {
+			recv = v
+		} else {
+			args = append(args, v)
+		}
+	}
+	// variadic last parameter of slice type
+	callArgs := strings.Join(args, ", ")
+	if fn.Signature.Variadic() && len(args) > 0 {
+		callArgs += "..."
+	}
+	call := fn.Name() + "(" + callArgs + ")"
+	if isMethod {
+		call = recv + "." + call
+	}
+	var rnames []string
+	for i := range rkinds {
+		rnames = append(rnames, fmt.Sprintf("r%d", i))
+	}
+	if len(rnames) > 0 {
+		fmt.Fprintf(&sb, "\t%s := %s\n", strings.Join(rnames, ", "), call)
+	} else {
+		fmt.Fprintf(&sb, "\t%s\n", call)
+	}
+	sb.WriteString("\tvar out []interface{}\n")
+	for i, k := range rkinds {
+		switch k {
+		case "int":
+			fmt.Fprintf(&sb, "\tout = append(out, fmt.Sprint(r%d))\n", i)
+		case "bool":
+			fmt.Fprintf(&sb, "\tout = append(out, bool(r%d))\n", i)
+		case "error":
+			fmt.Fprintf(&sb, "\tout = append(out, r%d == nil)\n", i)
+		case "bytes":
+			fmt.Fprintf(&sb, "\t{\n\t\tb := []int{}\n\t\tfor _, x := range []byte(r%d) {\n\t\t\tb = append(b, int(x))\n\t\t}\n\t\tout = append(out, map[string]interface{}{\"nil\": r%d == nil, \"b\": b})\n\t}\n", i, i)
+		case "str":
+			fmt.Fprintf(&sb, "\t{\n\t\tb := []int{}\n\t\tfor _, x := range []byte(string(r%d)) {\n\t\t\tb = append(b, int(x))\n\t\t}\n\t\tout = append(out, b)\n\t}\n", i)
+		}
+	}
+	sb.WriteString("\tjs, _ := json.Marshal(map[string]interface{}{\"r\": out})\n\tfmt.Println(\"GOVC-REPLAY \" + string(js))\n}\n")
+	return sb.String(), call
+}
+
+func isMethodRecv(isMethod bool, i int) bool { return isMethod && i == 0 }
+
+func parseBig(s string) (*big.Int, bool) {
+	return new(big.Int).SetString(strings.TrimSpace(s), 10)
 }
